@@ -11,19 +11,67 @@ package types
 //@ spec func authProxyNamed(f *Frontend) bool = f != nil && forall k int :: 0 <= k && k < len(f.AuthProxy.BindList) ==>
 //@     f.AuthProxy.BindList[k] != nil && f.AuthProxy.BindList[k].AuthBackendName != ""
 
+// ports of the binds are strictly ascending (hence unique)
+//@ spec func authProxySorted(f *Frontend) bool = f != nil && forall a int, b int :: 0 <= a && a < b && b < len(f.AuthProxy.BindList) ==>
+//@     f.AuthProxy.BindList[a].LocalPort < f.AuthProxy.BindList[b].LocalPort
+
+// C07: a port of the auth-proxy range is never allocated twice; C18: names are never empty
 //@ func (*Frontend).AcquireAuthBackendName
-//@   trusted
-//@   requires named: authProxyNamed(f)
+//@   props C07 C18
+//@   requires named:  authProxyNamed(f)
+//@   requires sorted: authProxySorted(f)
 //@   modifies f.*, objects("[]*AuthProxyBind")
 //@   ensures nonempty: result.1 == nil ==> result.0 != ""
 //@   ensures named:    authProxyNamed(f)
+//@   ensures unique:   forall a int, b int :: 0 <= a && a < b && b < len(f.AuthProxy.BindList) ==> f.AuthProxy.BindList[a].LocalPort != f.AuthProxy.BindList[b].LocalPort
+//@   ensures ordered:  result.1 == nil ==> forall a int, b int :: 0 <= a && a < b && b < len(proxy.BindList) ==> proxy.BindList[a].LocalPort <= proxy.BindList[b].LocalPort
+//@   ensures alias:    proxy == &f.AuthProxy
+//@   ensures sorted:   authProxySorted(f)
+//@   ensures bound:    result.1 == nil ==> exists k int :: 0 <= k && k < len(f.AuthProxy.BindList) && f.AuthProxy.BindList[k].AuthBackendName == result.0 && f.AuthProxy.BindList[k].Backend == backend
+//@   ensures full:     result.1 != nil ==> len(f.AuthProxy.BindList) == old(len(f.AuthProxy.BindList))
+//@   at call Slice#1 assert distinct: forall a int, b int :: 0 <= a && a < b && b < len(proxy.BindList) ==> proxy.BindList[a].LocalPort != proxy.BindList[b].LocalPort
+//@   at call Slice#1 assert appended: len(proxy.BindList) == old(len(f.AuthProxy.BindList)) + 1 && proxy.BindList[len(proxy.BindList)-1] == bind
+//@   loop 1 invariant scan: 0 <= $idx(1) && $idx(1) <= len(proxy.BindList) && proxy == &f.AuthProxy && f.AuthProxy.BindList == old(f.AuthProxy.BindList)
+//@       && old(f.AuthProxy.RangeStart) <= freePort && freePort <= old(f.AuthProxy.RangeStart) + $idx(1)
+//@       && (forall j int :: 0 <= j && j < $idx(1) ==> proxy.BindList[j].LocalPort != freePort && !(proxy.BindList[j].Backend == backend))
 //@ end
 
+// removing binds keeps the remaining ones in order: still named, ports still
+// strictly ascending (unique)
 //@ func (*Frontend).RemoveAuthBackendExcept
-//@   trusted
-//@   requires named: authProxyNamed(f)
+//@   props C07 C18
+//@   requires named:  authProxyNamed(f)
+//@   requires sorted: authProxySorted(f)
 //@   modifies f.*, objects("[]*AuthProxyBind")
 //@   ensures named:  authProxyNamed(f)
+//@   ensures sorted: authProxySorted(f)
+//@   ensures fewer:  len(f.AuthProxy.BindList) <= old(len(f.AuthProxy.BindList))
+//@   loop 1 invariant rng:    0 <= i && i <= $idx(1) && $idx(1) <= len(bindList) && bindList == old(f.AuthProxy.BindList)
+//@   loop 1 invariant tail:   forall j int :: $idx(1) <= j && j < len(bindList) ==> bindList[j] == old(f.AuthProxy.BindList[j])
+//@   loop 1 invariant binds:  forall p *AuthProxyBind :: old(allocated(p)) ==> p.LocalPort == old(p.LocalPort) && p.AuthBackendName == old(p.AuthBackendName)
+//@   loop 1 invariant kept:   forall k int :: 0 <= k && k < i ==> bindList[k] != nil && bindList[k].AuthBackendName != ""
+//@   loop 1 invariant sorted: forall a int, b int :: 0 <= a && a < b && b < i ==> bindList[a].LocalPort < bindList[b].LocalPort
+//@   loop 1 invariant below:  forall k int, j int :: 0 <= k && k < i && $idx(1) <= j && j < len(bindList) ==> bindList[k].LocalPort < old(f.AuthProxy.BindList[j].LocalPort)
+//@ end
+
+//@ func (*Frontend).RemoveAuthBackendByTarget
+//@   props C07
+//@   requires named:  authProxyNamed(f)
+//@   requires sorted: authProxySorted(f)
+//@   modifies f.*, objects("[]*AuthProxyBind")
+//@   ensures named:  authProxyNamed(f)
+//@   ensures sorted: authProxySorted(f)
+//@   loop 1 invariant rng:    0 <= i && i <= $idx(1) && $idx(1) <= len(bindList) && bindList == old(f.AuthProxy.BindList)
+//@   loop 1 invariant tail:   forall j int :: $idx(1) <= j && j < len(bindList) ==> bindList[j] == old(f.AuthProxy.BindList[j])
+//@   loop 1 invariant binds:  forall p *AuthProxyBind :: old(allocated(p)) ==> p.LocalPort == old(p.LocalPort) && p.AuthBackendName == old(p.AuthBackendName)
+//@   loop 1 invariant kept:   forall k int :: 0 <= k && k < i ==> bindList[k] != nil && bindList[k].AuthBackendName != ""
+//@   loop 1 invariant sorted: forall a int, b int :: 0 <= a && a < b && b < i ==> bindList[a].LocalPort < bindList[b].LocalPort
+//@   loop 1 invariant below:  forall k int, j int :: 0 <= k && k < i && $idx(1) <= j && j < len(bindList) ==> bindList[k].LocalPort < old(f.AuthProxy.BindList[j].LocalPort)
+//@ end
+
+//@ func hasBackend
+//@   props C07
+//@   modifies nothing
 //@ end
 
 // creates or finds the backend of an external auth service; touches only the
